@@ -155,6 +155,11 @@ def _leaf_converter(transformer, data, t):
     else:
         st.fired["leaf_reject_foreign"] += 1
         raise TypeError(f"not a payload: {type(data).__name__}")
+    if isinstance(data, Raw) and getattr(transformer, "no_explicit_cast", False):
+        # like '1' -> int: a payload is not yet a leaf, turning it into one is an explicit cast
+        # (union parsing first tries every branch in this strict mode)
+        st.fired["leaf_strict_reject"] += 1
+        raise TypeError("payload needs an explicit cast")
     fid = pid + LEAF_OFFSET[t]
     st.calls[fid] += 1
     tr = st.transient.get(fid)
